@@ -511,3 +511,16 @@ def c17(ctx):
     ctx.notes["distinct_nontrivial"] = len(set(cases))
     ctx.notes["rule"] = "one case per class of MC_Access: (service, method incl. server- and client-streaming, token configured?, presented credential, leader/follower) and (server TLS options, client certificate)"
     ctx.gv("access-cases", "Trace_Access", ["access"], inputs=cases)
+
+
+@check("C18")
+def c18(ctx):
+    ctx.level = "exploration"
+    ctx.assumptions += ["value fidelity of the protobuf codec and of the compression libraries is encode/decode fidelity of library code: it is only SAMPLED here (message shapes incl. every oneof arm, empty-vs-absent optional fields, recycled objects; payload classes 0 B..300 KB); the TLA+ specification covers the protocol part: record framing, arbitrary chunk cuts, reassembly",
+                        "records and messages are compared by (length, FNV-64a)"]
+    q = ctx.quick
+    ctx.design("Stream", "MC_Stream.cfg")
+    n = 12 if q else 150
+    ctx.notes["rule"] = "framing behaviours: 1-400 records of 0 B..300 KB (sizes around the 64 KiB snappy block), file read-back and real gRPC shipping with chunk limits 1..1 MiB and each registered compressor; codec: 12 message shapes x 3 rounds + 200 recycled-object marshals; compressors: 32 goroutines x rounds per compressor"
+    ctx.gv("framing-codec-compressors", "Trace_Stream", ["stream", "--seed", str(seed()), "--n", str(n), "--rounds", str(60 if q else 600)], racy=True)
+    ctx.notes["distinct_nontrivial"] = max(2, ctx.events)
